@@ -1371,6 +1371,13 @@ pub fn gen_plan(seed: u64, cfg: &GenCfg) -> SchedPlan {
             }
             v2 = (f.gen)(&mut r, cfg);
         }
+        // half of the time the second variant is a NEIGHBOUR of the first: the same call with exactly one
+        // argument changed (what a memo keyed on only some of the arguments confuses)
+        if r.chance(1, 2) && !v1.a.is_empty() {
+            if let Some(n) = neighbour(&v1, f, r.below(v1.a.len()), &mut r, cfg) {
+                v2 = n;
+            }
+        }
         let nt = r.range(2, 4).min(if cfg.max_threads > 0 { cfg.max_threads.max(2) } else { 4 });
         threads.clear();
         for t in 0..nt {
@@ -1462,6 +1469,97 @@ pub fn gen_plan(seed: u64, cfg: &GenCfg) -> SchedPlan {
 }
 
 /// the fixed catalogue used by the sequential forward/reverse self-check
+/// `v` with exactly argument `j` replaced by a value the family's generator produces there
+fn neighbour(v: &Op, f: &Fam, j: usize, r: &mut Rng, cfg: &GenCfg) -> Option<Op> {
+    for _ in 0..200 {
+        let w = (f.gen)(r, cfg);
+        if w.k == v.k && w.a.len() == v.a.len() && w.a[j] != v.a[j] {
+            let mut n = v.clone();
+            n.a[j] = w.a[j];
+            return Some(n);
+        }
+    }
+    None
+}
+
+/// For every operation kind and every argument position: a call, the same call with that one argument
+/// changed, and both again - on one thread, in both orders. Systematic where the seeded scenarios sample.
+pub fn neighbour_catalogue(cfg: &GenCfg) -> Vec<Op> {
+    let mut r = Rng::new(0x6e65_6967_6862);
+    let fams: Vec<&Fam> = if cfg.focus == "wnaf" { FAMS.iter().filter(|f| WNAF_FAMS.contains(&f.name)).collect() } else { FAMS.iter().collect() };
+    let mut out = vec![];
+    let mut seen: Vec<(String, usize)> = vec![];
+    for f in fams {
+        if f.name == "expected_panic" {
+            continue;
+        }
+        for _ in 0..60 {
+            let mut v = (f.gen)(&mut r, cfg);
+            if is_ctx_op(&v.k) && !v.a.is_empty() {
+                v.a[0] = 0;
+            }
+            // keep the big sizes out of this pass
+            if (v.k.ends_with("_sop") || v.k.ends_with("_pip")) && v.a[0] >= 7 {
+                continue;
+            }
+            if v.k.ends_with("batchnorm") && v.a[1] >= 6 {
+                continue;
+            }
+            for j in 0..v.a.len() {
+                if is_ctx_op(&v.k) && j == 0 {
+                    continue;
+                }
+                if seen.iter().any(|(k, p)| *k == v.k && *p == j) {
+                    continue;
+                }
+                if let Some(n) = neighbour(&v, f, j, &mut r, cfg) {
+                    if (n.k.ends_with("_sop") || n.k.ends_with("_pip")) && n.a[0] >= 7 {
+                        continue;
+                    }
+                    if n.k.ends_with("batchnorm") && n.a[1] >= 6 {
+                        continue;
+                    }
+                    seen.push((v.k.clone(), j));
+                    out.extend_from_slice(&[v.clone(), n.clone(), v.clone(), n.clone(), n, v.clone()]);
+                }
+            }
+        }
+    }
+    out
+}
+
+/// C02: every multiplication path with every hand-made scalar whose pool index is `shard` mod `of`
+/// (the seeded scenarios sample the pool; a path that is wrong for ONE scalar must not depend on luck)
+pub fn scalar_sweep(shard: usize, of: usize, with_256: bool) -> Vec<Op> {
+    let sc = &spools().scalars;
+    let nh = crate::spool::n_hand();
+    let mut out = vec![];
+    for k in (0..nh).filter(|k| k % of == shard) {
+        let lt = sc[k].lt255;
+        for g in ["g1", "g2"] {
+            let p = 1 + (k / of) % 5;
+            let q = 6 + (k / of) % 5; // special-Z and non-subgroup pool points for the plain paths
+            let mut push = |name: &str, a: &[usize]| out.push(Op::new(&format!("{}_{}", g, name), a));
+            push("mul", &[p, k]);
+            push("mul", &[q, k]);
+            push("amul", &[p, k]);
+            push("amul", &[q, k]);
+            push("ymul", &[p, k]);
+            push("mul3", &[p, k]);
+            push("mul_re", &[p, k, (k / of) % 4]);
+            if with_256 {
+                push("mul256", &[p, k]);
+            }
+            if lt {
+                push("wnaf_sb", &[0, k, p]);
+                push("wnaf_bs", &[0, p, (k / of) % 9, k]);
+                push("wnaf_raw", &[p, k, (k / of) % 7, 0]);
+            }
+        }
+    }
+    out
+}
+
 pub fn catalogue(cfg: &GenCfg) -> Vec<Op> {
     let mut r = Rng::new(0xca7a_1096);
     let mut v = vec![];
